@@ -884,6 +884,68 @@ def gen_D_declaration_order_3():
                         yield case
 
 
+# D4: divisions changes at every place of a part of several measures (in the middle of a later measure that has no
+# change at its own start, at a barline and in the middle of the measure after it, in both measures, ...)
+
+
+def div_sequences(values, nmeasures=2):
+    """all assignments of a divisions value to the quarters of `nmeasures` 2/4 measures (two quarters each) in which
+    the value changes in the middle of at least one measure"""
+    for vals in product(values, repeat=2 * nmeasures):
+        if any(vals[2 * k] != vals[2 * k + 1] for k in range(nmeasures)):
+            yield vals
+
+
+def _quarter_slots(vals):
+    """consecutive quarters with the divisions vals -> (divisions table without repeated values, slot bounds)"""
+    bounds = [0]
+    for v in vals:
+        bounds.append(bounds[-1] + v)
+    table = [[bounds[i], v] for i, v in enumerate(vals) if i == 0 or vals[i - 1] != v]
+    return table, bounds
+
+
+def gen_D_divisions_measures(values, dense, without_point=False):
+    """Two 2/4 measures = four quarters; every assignment of a divisions value of `values` to the four quarters with a
+    change in the middle of at least one measure (div_sequences): the table changes at any subset of {middle of
+    measure 1, barline, middle of measure 2}, so a measure may hold one entry in its middle and none at its start, one
+    at its start and one in its middle, or none.
+    dense=True: cores = every non-empty occupancy pattern of the 8 (voice{1,2}, quarter) places by a note that fills
+    the quarter (staff = voice);
+    dense=False: cores = all sets of <= 2 events: every span with a single symbol inside a quarter x {note voice 1,
+    note voice 2, rest voice 1}.
+    Every change in the middle of a measure must lie on a time point (something starts or ends there); the other
+    cores are the class of the known finding divisions_change_without_time_point (without_point=True yields them)."""
+    for vals in div_sequences(values):
+        table, b = _quarter_slots(vals)
+        meas = [[b[0], b[2]], [b[2], b[4]]]
+        mids = [b[2 * k + 1] for k in range(2) if vals[2 * k] != vals[2 * k + 1]]
+        base = {"sp": "D4", "q": table, "m": meas, "ts": [[0, 2, 4]]}
+
+        def on_points(ev):
+            return all(any(t in (x[1], x[2]) for x in ev) for t in mids)
+
+        if dense:
+            places = [(v, i) for v in (1, 2) for i in range(4)]
+            for occ in product((0, 1), repeat=len(places)):
+                # pitches: voice 1 by quarter 0..3, voice 2 alternating 4, 5 (all notes of one onset differ)
+                ev = [["n", b[i], b[i + 1], v, v, i if v == 1 else 4 + i % 2] for (v, i), f in zip(places, occ) if f]
+                if ev and on_points(ev) != without_point:
+                    yield dict(base, ev=ev)
+        else:
+            alpha = []
+            for i, q in enumerate(vals):
+                durs = [d for d in range(1, q + 1) if M.sym_for(Fraction(d, q)) is not None]
+                for (s, e) in spans(b[i], b[i + 1], durs):
+                    alpha.append(["n", s, e, 1, 1])
+                    alpha.append(["n", s, e, 2, 2])
+                    alpha.append(["r", s, e, 1, 1])
+            for n in (1, 2):
+                for comb in combinations(alpha, n):
+                    if on_points(comb) != without_point:
+                        yield dict(base, ev=[list(x) for x in comb])
+
+
 # ---------------------------------------------------------------------------------------------
 # E: parts and part groups
 
